@@ -16,6 +16,7 @@
 //	pa <name> <ns> <time> <selector> <mtls> <ports>      -> ok
 //	     selector: nil | - (present, no labels) | k=v,k=v     mtls: nil|UNSET|DISABLE|PERMISSIVE|STRICT
 //	     ports: - | 80:STRICT,8080:nil,...
+//	pu <i> <mtls> <ports>                                -> ok   (spec edit of pas[i]; bumps its ResourceVersion)
 //	q <ns> <labels> <svcNs> <ports>                      -> M=.. PP=.. Q=.. NS=.. G=.. BE=.. CFG=..
 //	chk <ns> <labels> <port> <epTLS 0|1> <dr> <clientNs> <importedNs> <waypoint 0|1>
 //	                                                     -> 0|1 BE=.. NS=..   (on the client's filtered view) dr: nil|DISABLE|SIMPLE|MUTUAL|ISTIO_MUTUAL
@@ -76,6 +77,7 @@ type paIn struct {
 	sel      [][2]string
 	mtls     string
 	ports    []portMode
+	rv       int // ResourceVersion (bumped by the pu op)
 }
 
 func parseLabels(tok string) [][2]string {
@@ -110,7 +112,7 @@ func parsePorts(tok string) []portMode {
 
 func parsePA(f []string) paIn {
 	t, _ := strconv.ParseInt(f[3], 10, 64)
-	p := paIn{name: wire.Dec(f[1]), ns: wire.Dec(f[2]), time: t, mtls: f[5], ports: parsePorts(f[6])}
+	p := paIn{name: wire.Dec(f[1]), ns: wire.Dec(f[2]), time: t, mtls: f[5], ports: parsePorts(f[6]), rv: 1}
 	if f[4] == "nil" {
 		p.selNil = true
 	} else {
@@ -201,6 +203,17 @@ func (s *sut) apply(f []string) (out string) {
 			return "bad-op"
 		}
 		s.add(parsePA(f))
+		return "ok"
+	case "pu":
+		if len(f) != 4 {
+			return "bad-op"
+		}
+		i, _ := strconv.Atoi(f[1])
+		if i >= 0 && i < len(s.pas) {
+			s.pas[i].mtls, s.pas[i].ports = f[2], parsePorts(f[3])
+			s.pas[i].rv++
+			s.ap, s.av = nil, nil
+		}
 		return "ok"
 	case "q":
 		if len(f) != 5 {
